@@ -1,7 +1,8 @@
 ---------------------------- MODULE Trace_Paging ----------------------------
 (* Trace validation (code -> spec) for Paging.tla.  A trace is one consumer   *)
 (* program run on a real ResultSet over a page layout served by the fake      *)
-(* node: the first event is Execute (with the layout), every event carries    *)
+(* node: the first event is Execute / ExecAsync (with the layout), every event *)
+(* carries                                                                   *)
 (* the value the operation returned (out), the projected state of the real    *)
 (* objects after it (post) and the pure reads current_rows / one() /          *)
 (* has_more_pages / paging_state taken in that state (reads).  An event is    *)
@@ -18,7 +19,8 @@ Post(p) ==
     /\ reqs' = p.reqs
     /\ served' = p.served
     /\ ps' = p.ps
-    /\ cur' = p.cur
+    /\ started' => cur' = p.cur
+    /\ cb' = p.cb
     /\ it' = p.it
     /\ mode' = p.mode
     /\ lh' = p.lh
@@ -44,9 +46,12 @@ TraceNext ==
           \/ e.e = "List"    /\ List
           \/ e.e = "index"   /\ ListMode("index", e.arg)
           \/ e.e = "eq"      /\ ListMode("eq", 0)
+          \/ e.e = "ExecAsync"   /\ ExecAsync
+          \/ e.e = "AddCallback" /\ AddCallback
+          \/ e.e = "Deliver"     /\ Deliver
        /\ act'.out = e.out
        /\ Post(e.post)
-       /\ Reads(e.reads)
+       /\ (started' => Reads(e.reads))
 
 TraceSpec == TraceInit /\ [][TraceNext]_tvars
 
